@@ -296,7 +296,7 @@ class C12(ConnProp):
     pid = 'C12'
     observables = 'per try_read: the descriptor tags handed over with each delivered request and the number still held; descriptors left open after dropping requests and connection'
     rule = ('error-free pipelined streams x schedules x 0..253 tagged descriptors per read (including reads that complete '
-            'zero, one or several requests and the read that hits EOF); each descriptor is a memfd whose content is its tag; '
+            'zero, one or several requests and the read that hits EOF); 30% of the schedules leave completed requests queued over several reads (no pop_parsed_request) before one read pops them all; each descriptor is a memfd whose content is its tag; '
             'non-trivial = distinct case with at least two descriptors and one delivered request')
 
     def cases(self, rng, tier):
